@@ -29,6 +29,17 @@ CONSTANTS Outs,        \* outpoint identifiers
 
 Gen == 0   \* the genesis block id
 
+\* Named deviation (a LEAD, never true of the code as it is): an atomic unit -- the per-block rollback batch, the block
+\* batch -- is flushed midway once it has grown beyond ethdb.IdealBatchSize (the go-ethereum idiom
+\* `if batch.ValueSize() > ethdb.IdealBatchSize { batch.Write(); batch.Reset() }`), i.e. it reaches the database as TWO
+\* commits.  MCZoneChain_leadFlush.cfg (block batch) and MCZoneChain_leadFlushRollback.cfg (rollback batch) override these
+\* definitions with TRUE; TLC must then find the crash between the two halves (NoHalfApply resp. Recoverable violated).
+\* It says why both units have to stay single commits whatever their size; the binding (faultdb SizeFactor pass of
+\* chaindrv crash) makes every size-triggered flush point of the real code fire.
+FlushBlockBatchMidway == FALSE
+FlushRollbackMidway == FALSE
+FlushMidway == FlushBlockBatchMidway \/ FlushRollbackMidway
+
 VARIABLES
   \* ---- the block tree (immutable once mined; lives in the candidate-body store)
   blocks,      \* id -> [parent, height, spent, created, trimmable]
@@ -132,11 +143,16 @@ CommonAncestor(a, b) ==
     IN ca[n]
 
 RECURSIVE RollbackOps(_, _)
-RollbackOps(b, stop) == IF b = stop THEN <<>> ELSE <<<<"rollback", b>>>> \o RollbackOps(blocks[b].parent, stop)
+RollbackOps(b, stop) ==
+    IF b = stop THEN <<>>
+    ELSE (IF FlushRollbackMidway THEN << <<"rollbackflush", b>>, <<"rollbackrest", b>> >> ELSE << <<"rollback", b>> >>)
+         \o RollbackOps(blocks[b].parent, stop)
 RECURSIVE ForwardOps(_, _)
 ForwardOps(b, stop) ==
     IF b = stop THEN <<>>
-    ELSE ForwardOps(blocks[b].parent, stop) \o << <<"canon", b>>, <<"batch", b>>, <<"head", b>> >>
+    ELSE ForwardOps(blocks[b].parent, stop)
+         \o (IF FlushBlockBatchMidway THEN << <<"canon", b>>, <<"batchflush", b>>, <<"batch", b>>, <<"head", b>> >>
+                             ELSE << <<"canon", b>>, <<"batch", b>>, <<"head", b>> >>)
 
 SetHeadBegin(t) ==
     /\ Idle /\ t \in Ids /\ t # cur /\ interrupted = -1
@@ -211,6 +227,35 @@ WRollback ==
     /\ Log([op |-> "w_rollback", b |-> Op[2], p |-> -1, sp |-> {}, cr |-> {}, tr |-> {}])
     /\ UNCHANGED <<blocks, dbUndo, dbMu, dbSize, aborted, interrupted, crashedEver>>
 
+\* ---- FlushMidway lead only: the two units above reaching the database in two commits each
+\* first half of a rollback batch: canonical hash unset, spent + trimmed outputs re-created -- flushed; the rest (created
+\* outputs deleted, head and canonical(parent) moved) follows in WRollbackRest
+WRollbackFlush ==
+    /\ todo # <<>> /\ Op[1] = "rollbackflush"
+    /\ LET b == Op[2] u == dbUndo[b] IN
+       /\ dbUtxo' = dbUtxo \cup u.spent \cup u.trimmed
+       /\ dbCanon' = [dbCanon EXCEPT ![blocks[b].height] = -1]
+    /\ todo' = Tail(todo)
+    /\ Log([op |-> "w_rollback_flush", b |-> Op[2], p |-> -1, sp |-> {}, cr |-> {}, tr |-> {}])
+    /\ UNCHANGED <<blocks, dbHead, dbUndo, dbMu, dbSize, cur, aborted, interrupted, crashedEver>>
+WRollbackRest ==
+    /\ todo # <<>> /\ Op[1] = "rollbackrest"
+    /\ LET b == Op[2] u == dbUndo[b] p == blocks[b].parent IN
+       /\ dbUtxo' = dbUtxo \ u.created
+       /\ dbCanon' = [dbCanon EXCEPT ![blocks[p].height] = p]
+       /\ dbHead' = p /\ cur' = p
+    /\ todo' = Tail(todo)
+    /\ Log([op |-> "w_rollback", b |-> Op[2], p |-> -1, sp |-> {}, cr |-> {}, tr |-> {}])
+    /\ UNCHANGED <<blocks, dbUndo, dbMu, dbSize, aborted, interrupted, crashedEver>>
+\* first half of a block batch: the outputs created so far are flushed while the block is still being processed
+WBatchFlush ==
+    /\ todo # <<>> /\ Op[1] = "batchflush"
+    /\ LET bk == blocks[Op[2]] IN
+       dbUtxo' = IF ~aborted /\ bk.honest /\ dbHead = bk.parent THEN dbUtxo \cup bk.created ELSE dbUtxo
+    /\ todo' = Tail(todo)
+    /\ Log([op |-> "w_batch_flush", b |-> Op[2], p |-> -1, sp |-> {}, cr |-> {}, tr |-> {}])
+    /\ UNCHANGED <<blocks, dbCanon, dbHead, dbUndo, dbMu, dbSize, cur, aborted, interrupted, crashedEver>>
+
 \* ---- crash between any two writes, and restart (HeaderChain.loadLastState)
 InHeadWindow == todo # <<>> /\ Op[1] = "head" /\ ~aborted
 Crash ==
@@ -234,6 +279,7 @@ Next ==
        \/ \E t \in Ids : SetHeadBegin(t)
        \/ (WithTamper /\ \E b \in Ids : Tamper(b))
        \/ WCanon \/ WBatch \/ WHead \/ WRollback
+       \/ (FlushMidway /\ (WRollbackFlush \/ WRollbackRest \/ WBatchFlush))
        \/ Crash \/ Restart
 
 Spec == Init /\ [][Next]_vars
@@ -255,6 +301,15 @@ Recoverable ==
                  /\ cur = dbHead
                  /\ \A h \in 0..blocks[dbHead].height : dbCanon[h] = AncestorAt(dbHead, h)
                  /\ dbMu[dbHead] = BagOfSet(dbUtxo)
+
+\* C11, the three "No ..." clauses of the property, on the restarted node:
+\* the stored outputs are the state of SOME block of the tree -- never a block's effects in part ...
+NoHalfApply == Quiescent => \E b \in Ids : dbUtxo = ReplayUtxo(b)
+\* ... never any of them twice: the commitment bag of the reported head counts every stored output exactly once ...
+NoDoubleApply == Quiescent => /\ \A o \in Outs : dbMu[dbHead][o] \in {0, 1}
+                              /\ dbMu[dbHead] = BagOfSet(dbUtxo)
+\* ... and never applied without the head having advanced (or un-applied without the head having moved back)
+NoApplyWithoutHeadAdvance == Quiescent => dbUtxo = ReplayUtxo(dbHead)
 
 \* C06: header commitments describe the stored state exactly
 CommitmentEqualsContent ==
